@@ -68,6 +68,9 @@ pub trait Property: Sync {
     fn rule(&self) -> String;
     /// access to the schedule inside a case, if it has one (for trace minimisation)
     fn schedule_mut<'a>(&self, _case: &'a mut Self::Case) -> Option<&'a mut Schedule> { None }
+    /// how often a case is re-executed before "does not fail" is believed (> 1 for cases whose execution the harness does not
+    /// fully control: workloads on a multi-thread tokio runtime)
+    fn attempts(&self, _case: &Self::Case) -> u32 { 1 }
     /// cases enumerated exhaustively before the random search (bounded-exhaustive parts)
     fn exhaustive(&self, _tier: Tier) -> Option<Box<dyn Iterator<Item = Self::Case> + '_>> { None }
 }
@@ -321,11 +324,11 @@ pub struct ReplayFile {
 fn confirm_and_minimise<P: Property>(prop: &P, cfg: &Cfg, mut case: P::Case, is_known: &dyn Fn(&str) -> bool)
                                     -> Result<(String, String, std::path::PathBuf), String> {
     let fails = |c: &P::Case| -> Option<(String, String, Option<Vec<(u32, u8)>>)> {
-        let rep = prop.run_guarded(c);
-        match rep.verdict {
-            Verdict::Violation { signature, detail } if !is_known(&signature) => Some((signature, detail, rep.trace)),
-            _ => None,
+        for _ in 0..prop.attempts(c).max(1) {
+            let rep = prop.run_guarded(c);
+            if let Verdict::Violation { signature, detail } = rep.verdict { if !is_known(&signature) { return Some((signature, detail, rep.trace)); } }
         }
+        None
     };
     let Some((mut sig, mut detail, trace)) = fails(&case) else {
         return Err(format!("shrunk failing case did not fail when re-run (non-deterministic harness?): {:?}", case));
@@ -381,7 +384,12 @@ fn confirm_and_minimise<P: Property>(prop: &P, cfg: &Cfg, mut case: P::Case, is_
 /// Re-runs one replay file against `prop` (strict: known findings are reported as violations too)
 pub fn replay_part<P: Property>(prop: &P, file: &ReplayFile) -> Result<RunReport, String> {
     let case: P::Case = serde_json::from_value(file.case.clone()).map_err(|e| format!("cannot decode case: {e}"))?;
-    Ok(prop.run_guarded(&case))
+    let mut rep = prop.run_guarded(&case);
+    for _ in 1..prop.attempts(&case).max(1) {
+        if matches!(rep.verdict, Verdict::Violation { .. }) { break; }
+        rep = prop.run_guarded(&case);
+    }
+    Ok(rep)
 }
 
 pub struct PropertyResult {
